@@ -299,11 +299,12 @@ static void scen_gen(const scen_t *s, res_t *r)
 }
 
 static char *VTOK[NKEY + 1][5];	/* per key: valid, bad-signature, expired, wrong-iss ; [NKEY]: alg none token */
+static char *VREAL[2];	/* correctly signed HS256 / alg-none tokens whose exp and nbf are JSON reals (long expired): whatever the library does with such dates */
 static char *VBIG[2];	/* valid HS256 (key 0) and alg-none tokens with a 6000-character claim */
 static void scen_verify(const scen_t *s, res_t *r)
 {
 	jwt_checker_t *c = jwt_checker_new();
-	const char *tok = s->variant >= 5 ? VBIG[s->key >= 0 ? 0 : 1] : VTOK[s->key >= 0 ? s->key : NKEY][s->variant % 5];
+	const char *tok = s->variant == 6 ? VREAL[s->key >= 0 ? 0 : 1] : s->variant >= 5 ? VBIG[s->key >= 0 ? 0 : 1] : VTOK[s->key >= 0 ? s->key : NKEY][s->variant % 5];
 	if (!c) { r->reported = 1; r->rc = 1; return; }
 	r->rc = 1;
 	if (s->key >= 0) CFG(jwt_checker_setkey(c, (jwt_alg_t)KALG[s->key], FPUB[s->prov][s->key]));
@@ -378,6 +379,8 @@ int main(int argc, char **argv)
 		int o = sprintf(pl, "{\"a\":\"");
 		memset(pl + o, 'x', 6000); strcpy(pl + o + 6000, "\",\"iss\":\"me\",\"exp\":1700009999}");
 		snprintf(hdr, sizeof(hdr), "{\"alg\":\"%s\",\"typ\":\"JWT\"}", vh_alg_name(KALG[0]));
+		VREAL[0] = vh_ref_token(&K[0], KALG[0], hdr, "{\"iss\":\"me\",\"exp\":1.0e9,\"nbf\":1.5}");
+		VREAL[1] = vh_ref_token(NULL, JWT_ALG_NONE, "{\"alg\":\"none\"}", "{\"iss\":\"me\",\"exp\":1000000000.5,\"nbf\":2e0}");
 		VBIG[0] = vh_ref_token(&K[0], KALG[0], hdr, pl);
 		VBIG[1] = vh_ref_token(NULL, JWT_ALG_NONE, "{\"alg\":\"none\"}", pl);
 		free(pl);
@@ -405,6 +408,9 @@ int main(int argc, char **argv)
 		add_scen("generate:none:4200-char-header:p0", T_GEN, 0, -1, 7);
 		add_scen("verify:HS256:6000-char-claim:p0", T_VERIFY, 0, 0, 5);
 		add_scen("verify:none:6000-char-claim:p1", T_VERIFY, 1, -1, 5);
+		add_scen("verify:HS256:real-valued-expired-dates:p0", T_VERIFY, 0, 0, 6);
+		add_scen("verify:HS256:real-valued-expired-dates:p1", T_VERIFY, 1, 0, 6);
+		add_scen("verify:none:real-valued-expired-dates:p0", T_VERIFY, 0, -1, 6);
 		add_scen("config:builder", T_CONFIG, 0, 0, 0);
 		add_scen("config:checker", T_CONFIG, 0, 0, 1);
 		for (int p = 0; p < 2; p++) {
